@@ -10,7 +10,7 @@ CONSTANTS
   Modes = {"pruned", "archival", "convert"}
   MaxRestarts = 2
   MaxDeletes = 3
-  IntraHead = FALSE
+  IntraHead = TRUE
   LazyChain = TRUE
   SimBias = TRUE
   MaxStep = 3
